@@ -20,7 +20,14 @@ import (
 // one instance seeded with VERIF_SEED so a disagreement replays exactly.
 type Rand struct{ s uint64 }
 
-func NewRand(seed uint64) *Rand { return &Rand{s: seed*0x9E3779B97F4A7C15 + 0x1234567} }
+func NewRand(seed uint64) *Rand {
+	// the seed goes through the splitmix finaliser first: otherwise seed+1 would be the
+	// same stream as seed, one draw ahead
+	z := seed + 0x632BE59BD9B4E019
+	z = (z ^ (z >> 30)) * 0xBF58476D1CE4E5B9
+	z = (z ^ (z >> 27)) * 0x94D049BB133111EB
+	return &Rand{s: z ^ (z >> 31)}
+}
 
 func (r *Rand) Uint64() uint64 {
 	r.s += 0x9E3779B97F4A7C15
@@ -104,6 +111,7 @@ type Run struct {
 	Evaluations int
 	Lines       int
 	distinct    map[[8]byte]struct{}
+	sampleRnd   *Rand // sampling of evidence examples must not consume generator draws
 	Hist        map[string]int
 	Samples     []string
 	Failures    []OracleFailure
@@ -118,7 +126,7 @@ func NewRun(prop, tier string, seed uint64, dir, replay string) (*Run, error) {
 		return nil, err
 	}
 	r := &Run{Prop: prop, Tier: tier, Seed: seed, Dir: dir, Replay: replay, Rnd: NewRand(seed),
-		distinct: map[[8]byte]struct{}{}, Hist: map[string]int{}, Extra: map[string]interface{}{},
+		distinct: map[[8]byte]struct{}{}, Hist: map[string]int{}, Extra: map[string]interface{}{}, sampleRnd: NewRand(seed ^ 0x5eed),
 		failKeys: map[string]int{}}
 	var err error
 	if r.cf, err = os.Create(filepath.Join(dir, "cases.txt")); err != nil {
@@ -153,7 +161,23 @@ func (r *Run) Mark(format string, a ...interface{}) {
 	fmt.Fprintln(r.cases, l)
 	fmt.Fprintln(r.impl, l)
 	r.Lines++
+	r.maybeFlush()
 }
+
+// maybeFlush: with VERIF_FLUSH=1 (set by ./check for the race-detector run, which may end the
+// process at any moment) every line reaches the files at once.
+func (r *Run) maybeFlush() {
+	if flushEach {
+		r.cases.Flush()
+		r.impl.Flush()
+	}
+}
+
+var flushEach = os.Getenv("VERIF_FLUSH") == "1"
+
+// Race reports whether this is the race-detector run of the thorough tier (tier "race"):
+// runners restrict themselves to their concurrent scenarios.
+func (r *Run) Race() bool { return r.Tier == "race" }
 
 // Line records one protocol line for the model driver and the observation of
 // the implementation it must reproduce (without the leading '=').
@@ -161,6 +185,7 @@ func (r *Run) Line(caseLine, implObs string) {
 	fmt.Fprintln(r.cases, r.Prop+" "+caseLine)
 	fmt.Fprintln(r.impl, "="+implObs)
 	r.Lines++
+	r.maybeFlush()
 }
 
 // Case counts one evaluated case. nontrivial says whether the case exercised
@@ -177,7 +202,7 @@ func (r *Run) Case(canon string, nontrivial bool, class string) {
 		copy(k[:], h[:8])
 		r.distinct[k] = struct{}{}
 	}
-	if len(r.Samples) < 8 && (r.Evaluations < 4 || r.Rnd.Chance(1, 200)) {
+	if len(r.Samples) < 8 && (r.Evaluations < 4 || r.sampleRnd.Chance(1, 200)) {
 		if len(canon) > 300 {
 			canon = canon[:300] + "…"
 		}
